@@ -215,6 +215,8 @@ def observe_reduce(rng, lens, nts):
         for nt in nts:
             mats = [rng.integers(-2, 3, size=(2, 2)).astype(float) for _ in range(L)]
             for fname, fn in (("matmul", lambda a, b: a @ b), ("kron", np.kron)):
+                if fname == "kron" and L > 9:
+                    continue        # (the Kronecker product of L 2x2 matrices has 4^L entries)
                 exc, d = "", 0
                 try:
                     got = par_reduce(fn, mats, num_threads=nt)
